@@ -1,0 +1,16 @@
+//go:build verif
+
+// Contracts for package xsurveyor (comment-only; read by /verif/govc).
+
+package xsurveyor
+
+//@ struct pipe
+//@   immutable: p s closeQ sendQ
+//@
+//@ struct socket
+//@   lock Mutex level 20
+//@   guarded_by Mutex: closed pipes recvQLen sendQLen recvExpire recvQ sizeQ
+//@   immutable: closeQ
+//@
+//@ func (*socket).RemovePipe
+//@   assumes cast("*pipe", pp.GetPrivate()).s == s
